@@ -1,6 +1,95 @@
-(* C16 - placeholder until the lexer proofs are merged. *)
-From Xeh Require Import Model.Prelude Model.Bits Model.Cell Model.Lexer.
+(* C16 - the lexer is total, loses no text, and reads literals as written.
+   [valid_utf8] (Proofs/LexLoc.v) is structural UTF-8 validity; every Rust &str satisfies it.  Three
+   statements need it: on a byte string that ends inside a multi-byte character the model's
+   positions over-count (machine-checked counterexamples: lex_reaches_end_refuted, word_text_refuted,
+   token_location_spec_refuted in Proofs/LexProofs.v).
+   C17(a) - token_location computes the true line, column and line text.  Property theorems only. *)
+From Xeh Require Import Model.Prelude Model.Bits Model.Cell Model.Lexer Model.Fmt Proofs.BitsProofs Proofs.LexProofs.
 
-Theorem C16_lex_new_pos : forall s, lpos (lex_new s) = 0.
-Proof. reflexivity. Qed.
-Check C16_lex_new_pos : forall s, lpos (lex_new s) = 0.
+(* totality: lexing never runs out of fuel - the token list is non-empty, its last element is
+   the end of input or the first error, and no earlier element is *)
+Theorem C16_lex_total : forall s, exists pre t a b,
+  lex_string s = pre ++ [(t, a, b)] /\ is_final t = true /\
+  Forall (fun x => is_final (fst (fst x)) = false) pre.
+Proof. exact lex_total. Qed.
+Check C16_lex_total : forall s, exists pre t a b,
+  lex_string s = pre ++ [(t, a, b)] /\ is_final t = true /\
+  Forall (fun x => is_final (fst (fst x)) = false) pre.
+
+(* no text is lost: the spans are contiguous from 0 ... *)
+Theorem C16_lex_tiles : forall s, tiles 0 (lex_string s).
+Proof. exact lex_tiles. Qed.
+Check C16_lex_tiles : forall s, tiles 0 (lex_string s).
+
+(* ... and when lexing succeeds they end exactly at the end of the text *)
+Theorem C16_lex_reaches_end : forall s pre a b, valid_utf8 s = true ->
+  lex_string s = pre ++ [(TEnd, a, b)] -> a = String.length s /\ b = String.length s.
+Proof. exact lex_reaches_end_weak. Qed.
+Check C16_lex_reaches_end : forall s pre a b, valid_utf8 s = true ->
+  lex_string s = pre ++ [(TEnd, a, b)] -> a = String.length s /\ b = String.length s.
+
+(* every token before the last consumes at least one byte *)
+Theorem C16_lex_progress : forall s t a b,
+  In (t, a, b) (lex_string s) -> is_final t = false -> a < b.
+Proof. exact lex_progress. Qed.
+Check C16_lex_progress : forall s t a b,
+  In (t, a, b) (lex_string s) -> is_final t = false -> a < b.
+
+(* a word token is exactly the text of its span and contains no ASCII whitespace *)
+Theorem C16_word_text : forall s w a b, valid_utf8 s = true ->
+  In (TWord w, a, b) (lex_string s) -> w = substring_of s a b /\ no_ws w = true.
+Proof. exact word_text_weak. Qed.
+Check C16_word_text : forall s w a b, valid_utf8 s = true ->
+  In (TWord w, a, b) (lex_string s) -> w = substring_of s a b /\ no_ws w = true.
+
+(* integer conversion: sign, digits in the radix, exact value or rejection when out of range *)
+Theorem C16_int_from_str_radix : forall (neg : bool) (radix : N) (ds : list N) (body : string),
+  (2 <= radix <= 36)%N -> ds <> [] -> Forall (fun d => (d < radix)%N) ds ->
+  body = fold_right (fun d acc => String (digit_char false d) acc) EmptyString ds ->
+  let v := (if neg then - digits_value (Z.of_N radix) ds 0 else digits_value (Z.of_N radix) ds 0)%Z in
+  int_from_str_radix ((if neg then "-" else "") ++ body) radix = if in_i128 v then Some v else None.
+Proof. exact int_from_str_radix_spec. Qed.
+Check C16_int_from_str_radix : forall (neg : bool) (radix : N) (ds : list N) (body : string),
+  (2 <= radix <= 36)%N -> ds <> [] -> Forall (fun d => (d < radix)%N) ds ->
+  body = fold_right (fun d acc => String (digit_char false d) acc) EmptyString ds ->
+  let v := (if neg then - digits_value (Z.of_N radix) ds 0 else digits_value (Z.of_N radix) ds 0)%Z in
+  int_from_str_radix ((if neg then "-" else "") ++ body) radix = if in_i128 v then Some v else None.
+
+(* printing an integer (default format: decimal) and reading the text back yields the integer *)
+Theorem C16_print_read_int : forall z, in_i128 z = true ->
+  let txt := fmt_int fmt_default z in
+  lex_string txt = [(TLit (CInt z), 0, String.length txt); (TEnd, String.length txt, String.length txt)].
+Proof. exact print_read_int. Qed.
+Check C16_print_read_int : forall z, in_i128 z = true ->
+  let txt := fmt_int fmt_default z in
+  lex_string txt = [(TLit (CInt z), 0, String.length txt); (TEnd, String.length txt, String.length txt)].
+
+(* printing a bit-string and reading the text back yields the same bit sequence *)
+Theorem C16_print_read_bitstr : forall b, wf b ->
+  let txt := fmt_bitstr b in
+  exists b', lex_string txt = [(TLit (CBits b'), 0, String.length txt); (TEnd, String.length txt, String.length txt)]
+             /\ wf b' /\ abs b' = abs b.
+Proof. exact print_read_bitstr. Qed.
+Check C16_print_read_bitstr : forall b, wf b ->
+  let txt := fmt_bitstr b in
+  exists b', lex_string txt = [(TLit (CBits b'), 0, String.length txt); (TEnd, String.length txt, String.length txt)]
+             /\ wf b' /\ abs b' = abs b.
+
+(* recorded finding (D21): a negative integer printed in hexadecimal is its two's complement
+   and does not read back *)
+Theorem C16_known_hex_negative_refuted :
+  exists z, in_i128 z = true /\
+    let txt := fmt_int (fl_set_base fmt_default 16) z in
+    forall n, lex_string txt <> [(TLit (CInt z), 0, n); (TEnd, n, n)].
+Proof. exact hex_negative_refuted. Qed.
+Check C16_known_hex_negative_refuted :
+  exists z, in_i128 z = true /\
+    let txt := fmt_int (fl_set_base fmt_default 16) z in
+    forall n, lex_string txt <> [(TLit (CInt z), 0, n); (TEnd, n, n)].
+
+(* C17(a): token_location, for any mix of LF / CRLF / CR, tabs and multi-byte characters *)
+Theorem C17_token_location : forall s p, valid_utf8 s = true -> s <> EmptyString -> p <= String.length s ->
+  token_location s p = (spec_line s p, spec_col s p, spec_line_start s p, spec_line_end s p).
+Proof. exact token_location_spec_weak. Qed.
+Check C17_token_location : forall s p, valid_utf8 s = true -> s <> EmptyString -> p <= String.length s ->
+  token_location s p = (spec_line s p, spec_col s p, spec_line_start s p, spec_line_end s p).
